@@ -113,10 +113,17 @@ func (m *Mutex) Lock() {
 	for !m.m.TryLock() {
 		zzsim.Blocked()
 	}
+	zzsim.Held(1)
 	zzsim.Progress()
 }
-func (m *Mutex) TryLock() bool { return m.m.TryLock() }
-func (m *Mutex) Unlock()       { m.m.Unlock(); zzsim.Progress(); rel() }
+func (m *Mutex) TryLock() bool {
+	ok := m.m.TryLock()
+	if ok {
+		zzsim.Held(1)
+	}
+	return ok
+}
+func (m *Mutex) Unlock() { m.m.Unlock(); zzsim.Held(-1); zzsim.Progress(); rel() }
 
 type RWMutex struct{ m sync.RWMutex }
 
@@ -125,19 +132,33 @@ func (m *RWMutex) Lock() {
 	for !m.m.TryLock() {
 		zzsim.Blocked()
 	}
+	zzsim.Held(1)
 	zzsim.Progress()
 }
-func (m *RWMutex) TryLock() bool { return m.m.TryLock() }
-func (m *RWMutex) Unlock()       { m.m.Unlock(); zzsim.Progress(); rel() }
+func (m *RWMutex) TryLock() bool {
+	ok := m.m.TryLock()
+	if ok {
+		zzsim.Held(1)
+	}
+	return ok
+}
+func (m *RWMutex) Unlock() { m.m.Unlock(); zzsim.Held(-1); zzsim.Progress(); rel() }
 func (m *RWMutex) RLock() {
 	acq()
 	for !m.m.TryRLock() {
 		zzsim.Blocked()
 	}
+	zzsim.Held(1)
 	zzsim.Progress()
 }
-func (m *RWMutex) TryRLock() bool  { return m.m.TryRLock() }
-func (m *RWMutex) RUnlock()        { m.m.RUnlock(); zzsim.Progress(); rel() }
+func (m *RWMutex) TryRLock() bool {
+	ok := m.m.TryRLock()
+	if ok {
+		zzsim.Held(1)
+	}
+	return ok
+}
+func (m *RWMutex) RUnlock() { m.m.RUnlock(); zzsim.Held(-1); zzsim.Progress(); rel() }
 func (m *RWMutex) RLocker() Locker { return (*rlocker)(m) }
 
 type rlocker RWMutex
